@@ -37,3 +37,5 @@ fn main() {
 
 #[allow(dead_code)]
 fn unused(_: &Path) { let _ = (json!({}), KEYS, PUNCT27, Rng::new(0), Report::new(""), esc("")); }
+
+pub fn code_ok(c: char) -> bool { code_for_char(c).is_some() }
